@@ -37,5 +37,5 @@ CHECKER_MODULES = ["Spdc.Real.Jsa"]
 
 def families(tier, seed):
     if tier == "quick":
-        return [("pm", seed, 300, ["k"]), ("pm", seed, 300, ["c07"])]
+        return [("pm", seed, 1000, ["k"]), ("pm", seed, 1000, ["c07"])]
     return [("pm", seed, 4000, ["k"]), ("pm", seed, 4000, ["c07"])]
